@@ -7,7 +7,7 @@ CONSTANTS
   IdxSet <- MCIdxBig
   WSet = {"t4", "t22"}
   ThrSet = {0, 1, 2, 3, 4}
-  PosSet = {0, 2}
+  PosSet = {1}
 INVARIANTS TypeOK IterRefinesInv
 PROPERTIES SetExact Counts Algebra EqualOK ReadOnly IterMeaning
 VIEW View
